@@ -28,6 +28,7 @@ type Env struct {
 	bound map[string]Term
 	nosafe bool // do not emit safety obligations (contract mode, or re-evaluation)
 	infoOverride *types.Info
+	foreign      bool // evaluating another function's or a lemma's clauses: the current function's lets/binders are not in scope
 	globalInit   bool // evaluating a package-level initializer: calls yield unconstrained values
 }
 
@@ -240,10 +241,11 @@ func (env *Env) ident(id *ast.Ident) Val {
 		env.fail(id.Pos(), "unsupported identifier %s", name)
 	}
 	// contract mode
-	if v, ok := env.names[name]; ok {
+	// binders and lets take precedence over Go locals of the same name (a range binder counts completed iterations)
+	if v, ok := env.st.spec[name]; ok && !env.foreign {
 		return v
 	}
-	if v, ok := env.st.spec[name]; ok {
+	if v, ok := env.names[name]; ok {
 		return v
 	}
 	switch name {
